@@ -29,6 +29,7 @@ def run(ctx) -> None:
     r5_stateless(ctx)
     from . import c05
     c05.r5_reparse_sites(ctx, "C17.R6", placeholders=True)
+    r9_alternatives_under_all(ctx)
     r7_consuming_modifiers(ctx)
     r8_filters_honoured(ctx)
 
@@ -377,7 +378,7 @@ def _r3_regex_expansion(ctx, rr: FuncInfo) -> None:
         def replace_placeholders(self, cb):
             out = []
             for rep in cb(_PH("p")):
-                out.append(_S("foo") + rep + _S("bar"))
+                out.append(_S("%lit%foo") + rep + _S("bar"))   # '%lit%' is literal text (an escaped \\%lit\\% of the rule)
             return out
 
     made = []
@@ -403,10 +404,69 @@ def _r3_regex_expansion(ctx, rr: FuncInfo) -> None:
     except Raised as ex:
         r.violation("C17.R3", rr.qual, "replace_placeholders on 'foo%p%bar'", f"raises {ex}", rr.loc)
         return
-    got = [(x.text, x.flags == {"I"}, x.ph) for x in (out or [])]
-    want = [("foo.*bar", True, False), ("foo.bar", True, False), ("fooabcbar", True, False), ("foo%q%bar", True, True)]
+    def kept(x):
+        """placeholders of the result: as objects in the string the expression was built from, or by re-parsing printed
+        text — which is only right if the literal percent pair was escaped in that text"""
+        if isinstance(x.text, _S):
+            return sorted(p_.name for p_ in x.text.parts if isinstance(p_, _PH))
+        if x.ph:
+            import re as _re
+            return sorted(_re.findall(r"(?<!\\\\)%([^%\\\\]+)%", str(x.text)))
+        return []
+    got = [(str(x.text).replace("\\\\%", "%"), x.flags == {"I"}, kept(x)) for x in (out or [])]
+    want = [("%lit%foo.*bar", True, []), ("%lit%foo.bar", True, []), ("%lit%fooabcbar", True, []), ("%lit%foo%q%bar", True, ["q"])]
     if got == want:
-        r.ok("C17.R3", rr.qual, "regular expressions expand through the string cross product, keep their flags, write wildcards as '.*' / '.', and keep handed-back placeholders as placeholders", rr.loc)
+        r.ok("C17.R3", rr.qual, "regular expressions expand through the string cross product, keep their flags, write wildcards as '.*' / '.', keep handed-back placeholders as placeholders and literal percent pairs as text", rr.loc)
     else:
         r.violation("C17.R3", rr.qual, f"replace_placeholders on 'foo%p%bar' gives {got}",
-                    f"specified {want} (text, flags kept, placeholders restored): a wildcard that replaces a placeholder inside a regular expression must be written as the expression it stands for — a bare '*' quantifies the preceding character (/foo*/ matches 'fo', not 'foobar') —, every replacement gives one expression and the flag set is kept", rr.loc)
+                    f"specified {want} (text, flags kept, placeholders of the result): the literal text %lit% (written \\%lit\\% in the rule) must not become a placeholder when a handed-back placeholder is restored; a wildcard that replaces a placeholder inside a regular expression must be written as the expression it stands for — a bare '*' quantifies the preceding character (/foo*/ matches 'fo', not 'foobar') —, every replacement gives one expression and the flag set is kept", rr.loc)
+
+
+def r9_alternatives_under_all(ctx) -> None:
+    """`all` links the values the rule lists with AND; the replacements of one placeholder are alternatives for one of them."""
+    from ..tabulate import Interp, Raised
+    r, prog = ctx.r, ctx.prog
+    r.rule("C17.R9", "the replacements of a placeholder stay OR-linked under the `all` modifier: BasePlaceholderTransformation.apply_detection_item, interpreted on an AND-linked item whose first value expands to two replacements, keeps them together in one SigmaExpansion (an OR) instead of splicing them into the AND-linked value list")
+    q = PH + ".BasePlaceholderTransformation.apply_detection_item"
+    if not prog.has_func(q):
+        vt = prog.func("sigma.processing.transformations.base.ValueTransformation.apply_detection_item")
+        r.violation("C17.R9", PH + ".BasePlaceholderTransformation", "apply_detection_item (inherited from ValueTransformation)",
+                    "the replacements of a placeholder are spliced into the value list of the item (results.extend): under `all` the list is AND-linked, so `f|expand|all: '%a%'` with a = [x, y] converts to f=x and f=y, which no single-valued field satisfies", vt.loc)
+        r.floor("C17.R9", 1)
+        return
+    f = prog.func(q)
+
+    class AND:
+        pass
+
+    class OR:
+        pass
+
+    class _Exp:
+        def __init__(self, values):
+            self.values = list(values)
+
+    def run(linking):
+        item = type("I", (), {})()
+        item.field, item.value_linking, item.value = "f", linking, ["%a%", "foo"]
+        me = type("T", (), {})()
+        me._apply_values = lambda field, values: ((["x", "y"], True) if values == ["%a%"] else (list(values), False)) if len(values) == 1 else (["x", "y", "foo"], True)
+        base = type("B", (), {"apply_detection_item": lambda self_, it_: "DELEGATED"})()
+        it = Interp({"self": me, "detection_item": item, "ConditionAND": AND, "ConditionOR": OR, "SigmaExpansion": _Exp, "super": lambda: base}, max_steps=2000)
+        out = it.call(f.node.body)
+        return out, item
+    try:
+        out, item = run(AND)
+        shown = [v.values if isinstance(v, _Exp) else v for v in item.value]
+        if out is item and shown == [["x", "y"], "foo"]:
+            r.ok("C17.R9", f.qual, "AND-linked item: ['%a%', 'foo'] with a = [x, y] becomes [expansion(x, y), 'foo']", f.loc)
+        else:
+            r.violation("C17.R9", f.qual, f"AND-linked item after the transformation: {shown}", "specified [[x, y], foo]: the alternatives of one value must be kept together in an expansion (OR) when the values of the item are AND-linked", f.loc)
+        out, item = run(OR)
+        if out == "DELEGATED" or [v.values if isinstance(v, _Exp) else v for v in item.value] in (["x", "y", "foo"], [["x", "y"], "foo"]):
+            r.ok("C17.R9", f.qual, "OR-linked item: replacements join the (OR-linked) value list", f.loc)
+        else:
+            r.violation("C17.R9", f.qual, f"OR-linked item after the transformation: {item.value}", "replacements lost or reordered", f.loc)
+    except Raised as ex:
+        r.violation("C17.R9", f.qual, "apply_detection_item", f"raises {ex}", f.loc)
+    r.floor("C17.R9", 2)
